@@ -46,7 +46,7 @@ func runC15(s *core.Sim, tier string) RunInfo {
 		return info()
 	}
 	var startErr error
-	if _, fin := s.Do("syncer-start", 30*time.Minute, func() { startErr = w.Sy.Start(context.Background()) }); !fin || startErr != nil {
+	if _, fin := s.Do("syncer-start", 30*time.Minute, func() { startErr = w.StartSyncer(29 * time.Minute) }); !fin || startErr != nil {
 		s.Violate("start-error", nil, "Syncer.Start: finished=%v err=%v (trust range %d)", fin, startErr, simhdr.Cfg.TrustRange)
 		return info()
 	}
